@@ -584,16 +584,16 @@ def vec_expected(c):
         nt *= v["nx"]
     counts = [Fr(0)] * nt
     rel, first = 0, True
-    mparts = ["HIST", "1", "1" if c["stepzero"] else "0", str(len(vs))] + [V.hexf(v["lower"]) for v in vs] + \
-             [V.hexf(v["w"]) for v in vs] + [str(v["nx"]) for v in vs] + [str(len(c["events"]))]
+    mparts = ["HISTV", "1" if c["stepzero"] else "0", str(len(vs))] + [V.hexf(v["lower"]) for v in vs] + \
+             [V.hexf(v["w"]) for v in vs] + [str(v["nx"]) for v in vs] + [str(size)] + [V.hexf(x) for x in wts] + [str(len(c["events"]))]
     for boundary, coords in c["events"]:
         if first:
             first = False
         elif not boundary:
             rel += 1
-        mparts += [str(rel), "1" if boundary else "0", str(size)]
-        for iv in range(size):
-            mparts += [V.hexf(coords[d][iv]) for d in range(len(vs))] + [V.hexf(wts[iv])]
+        mparts += [str(rel), "1" if boundary else "0"]
+        for d in range(len(vs)):
+            mparts += [V.hexf(x) for x in coords[d]]
         if not ((rel > 0 and not boundary) or c["stepzero"]):
             continue
         for iv in range(size):
@@ -701,6 +701,7 @@ def check(run):
 
     # grid files: writers/readers of the three forms (+ OpenDX header), model vs real code, round-trip oracle
     gridio.run_io(run, V.rng("C15io"), unit, model, 240 if quick else 6000)
+    gridio.run_round3(run, V.rng("C15r3"), unit, model, 200 if quick else 5000)
 
     # histogram scenarios through the engine simulator
     d = V.scratch("C15")
